@@ -908,6 +908,20 @@ func runSeq(p Profile, seed uint64, cas int) *SeqRes {
 			s.walkCompare("dump", fmt.Sprintf("after restart following op %d", s.step))
 		}
 	}
+	if s.stop && p.TwinEvery > 0 {
+		// the reference has diverged (an oracle of another property fired);
+		// the comparison of the running server with a restart from its disk
+		// needs no reference
+		twinOnly := true
+		for _, v := range res.Viol {
+			if v.Class == "twin" || v.Class == "cache" {
+				twinOnly = false
+			}
+		}
+		if twinOnly {
+			s.twinCompare("after the reference had diverged")
+		}
+	}
 	if !s.stop {
 		if p.Sweep {
 			s.freeSpaceSweep()
@@ -967,7 +981,11 @@ func (s *Sess) prepopulate(n int) {
 	// after a restart (name caches rebuilt from disk): every long name must
 	// still be known - creating it again must be refused
 	if lr := s.m.lookupIn(s.m.Objs[s.m.Root], "longs"); lr != nil && lr.FH != nil {
-		s.restart()
+		if s.p.TwinEvery > 0 {
+			s.twinCompare("after building the directories") // ends with a clean restart
+		} else {
+			s.restart()
+		}
 		for i := 34; i < 40; i++ {
 			s.exec(&Op{K: []OpKind{OpCreate, OpMkdir, OpSymlink}[i%3], H: lr.FH, Name: fmt.Sprintf("%03d", i) + longName(s.m.Lim.NameMax-3, 'N'), Target: "t"})
 		}
